@@ -181,6 +181,16 @@ def emit_logics(chk, g, facts, rules, pid='C03'):
                         'Proof. constructor; vm_compute; reflexivity. Qed.\n'
                         f'Definition C03_term_{i} := C03.C03_terminates PL_{i} WS_{i} {mmax} term_{i}.\n')
             chk.obligation(f'{n}:term_ok', True)
+        for br in bad:
+            # a rule whose exactness obligation is refuted is outside the decision theorem: report it
+            # (with a concrete wrongly decided argument when the search finds one)
+            kn = chk.known.get((chk.pid, f'decide:{n}:{br}'))
+            inp = None if (kn and kn.get('status') == 'open') else \
+                search_failing(n, next(it['rule'] for it in data[n] if it['rule']['name'] == br))
+            chk.violation(f'decide:{n}:{br}',
+                          f'{n}: the expansion {br} is not exact, so arguments using it are not decided by the theorem'
+                          + (f"; wrongly decided: {inp['argstr']} (verdict valid={inp['verdict_valid']}, truth-table valid={inp['truth_table_valid']})" if inp else ''),
+                          dict(kind='proof', logic=n, rule=br, **(inp or {})), found_input=bool(inp))
         info[n] = dict(ok=base_ok, bad_rules=bad, nrules=len(good))
         chk.obligation(f'{n}:decide_ok(closure,tables,{len(good)} exact rules)', base_ok)
         if not base_ok:
@@ -194,6 +204,47 @@ def emit_logics(chk, g, facts, rules, pid='C03'):
     return info
 
 
+_SEARCH_CACHE = {}
+
+
+def search_failing(logic, rule):
+    "Failing-input search for an inexact rule: arguments built around the rule's principal shape; real verdict vs brute-force oracle of the implementation's own evaluator."
+    key = (logic, rule['name'])
+    if key in _SEARCH_CACHE:
+        return _SEARCH_CACHE[key]
+    A, B, Cc = ['A', 0], ['A', 1], ['A', 2]
+    o = rule['operator']
+    phi = ['U', o, A] if o in TF_OPS_U else ['B', o, A, B]
+    if rule['negated']:
+        phi = ['U', 'Negation', phi]
+    lits = [A, B, ['U', 'Negation', A], ['U', 'Negation', B]]
+    subs = [(a_, b_) for a_ in (A, ['U', 'Negation', A], ['B', 'Conjunction', A, ['U', 'Negation', A]], ['U', 'Negation', ['U', 'Negation', A]])
+            for b_ in (B, ['U', 'Negation', B])]
+    jobs = []
+    for a_, b_ in subs:
+        ph = json.loads(json.dumps(phi).replace(json.dumps(A), '"@A"').replace(json.dumps(B), '"@B"')
+                        .replace('"@A"', json.dumps(a_)).replace('"@B"', json.dumps(b_)))
+        des = rule['designation'] is not False
+        for extra in ([], [lits[0]], [lits[1]], [lits[2]], [lits[3]], [lits[2], lits[3]], [lits[0], lits[3]]):
+            for other in lits + [Cc, ['B', 'Disjunction', A, B], ['B', 'Disjunction', lits[2], lits[3]]]:
+                if des:
+                    jobs.append(dict(logic=logic, premises=[ph] + extra, conclusion=other))
+                else:
+                    jobs.append(dict(logic=logic, premises=extra + [other], conclusion=ph))
+                    jobs.append(dict(logic=logic, premises=extra, conclusion=['B', 'Disjunction', ph, other]))
+    for i, j in enumerate(jobs):
+        j['id'] = i
+    res = probe_json('probe_oracle.py', stdin=json.dumps(dict(jobs=jobs)), timeout=900)['results']
+    hit = None
+    for j, r in zip(jobs, res):
+        if r.get('ok') and r['valid'] is not None and r['oracle_valid'] is not None and r['valid'] != r['oracle_valid']:
+            hit = dict(premises=j['premises'], conclusion=j['conclusion'], argstr=r['argstr'],
+                       verdict_valid=r['valid'], truth_table_valid=r['oracle_valid'])
+            break
+    _SEARCH_CACHE[key] = hit
+    return hit
+
+
 def run(args) -> int:
     chk = Check('C03', args.tier, args.seed)
     ensure_theory()
@@ -204,6 +255,22 @@ def run(args) -> int:
     g = gen_dir('C03')
     info = emit_logics(chk, g, facts, rules)
 
+    # the theorems are about the schemas: validate that the truth-functional rules are schematic (operands that are
+    # themselves negations / compounds must give exactly the schema instance)
+    sc = probe_json('probe_schematic.py', [str(args.seed), '0' if args.tier == 'quick' else '6'], timeout=1800)
+    rule_by = {(n, it['name']): it for n in rules for it in rules[n]['rules']}
+    for rec in sc['cases']:
+        if rec['kind'] != 'op':
+            continue
+        chk.count('schematic', 'ok' if rec['ok'] else 'mismatch')
+        if not rec['ok']:
+            inp = search_failing(rec['logic'], rule_by[(rec['logic'], rec['rule'])])
+            chk.violation(f'schematic:{rec["logic"]}:{rec["rule"]}',
+                          f'{rec["logic"]} {rec["rule"]}: on operands {rec["operands"]} the rule does not produce its schema instance '
+                          f'(got {rec.get("got")}), so the decision theorem does not describe it'
+                          + (f"; wrongly decided: {inp['argstr']} (verdict valid={inp['verdict_valid']}, truth-table valid={inp['truth_table_valid']})" if inp else ''),
+                          dict(kind='proof', logic=rec['logic'], rule=rec['rule'], operands=rec['operands'], **(inp or {})),
+                          found_input=bool(inp))
     jobs = gen_jobs(logics, args.tier, args.seed)
     res = probe_json('probe_proofs.py', stdin=json.dumps(dict(jobs=jobs)), timeout=3000)['results']
     exprs, idx = [], []
